@@ -66,6 +66,8 @@ func errClass(err error) (int, string) {
 	switch {
 	case err == ua.StatusBadSecurityChecksFailed:
 		return 1, ""
+	case err == ua.StatusBadSequenceNumberInvalid:
+		return 8, ""
 	case strings.Contains(es, "decode chunk failed"), strings.Contains(es, "decode header failed"):
 		return 2, ""
 	case strings.Contains(es, "openingInstance is nil"):
@@ -255,8 +257,8 @@ func c13ids(n int) {
 	v2.AddInstance(noneAlgo(), chanID, tokID, 0, time.Now(), time.Hour)
 	maxHeld, tooMany := 0, 0
 	for i := 0; i < 3*mc+1; i++ {
-		peer2.Write(symChunk("MSG", 'C', chanID, tokID, uint32(i+1), 1, []byte{0}))
-		peer2.Write(symChunk("MSG", 'F', chanID, tokID, uint32(i+1), 2, svcBody(1, nil)))
+		peer2.Write(symChunk("MSG", 'C', chanID, tokID, uint32(2*i+1), 1, []byte{0}))
+		peer2.Write(symChunk("MSG", 'F', chanID, tokID, uint32(2*i+2), 2, svcBody(1, nil)))
 		for k := 0; k < 2; k++ {
 			if r := recvOne(sc2, conn2, 5*time.Second); r.K == "toomany" {
 				tooMany++
